@@ -173,7 +173,7 @@ struct Part {
 
 pub fn check(tier: &str) -> i32 {
     let seed = verif_seed();
-    let n = std::env::var("VERIF_N").ok().and_then(|x| x.parse().ok()).unwrap_or(if tier == "thorough" { 3000 } else { 160 });
+    let n = std::env::var("VERIF_N").ok().and_then(|x| x.parse().ok()).unwrap_or(if tier == "thorough" { 1500 } else { 160 });
     let start = std::time::Instant::now();
     println!("procsim C04 tier={tier} VERIF_SEED={seed} histories={n}");
     let jobs = simcore::pool::workers();
